@@ -282,6 +282,23 @@ theorem sort_stable_spec {α : Type} (less : α → α → Bool)
 example : (sortStable (fun a b : Nat => decide (a / 10 < b / 10)) [31, 12, 35, 11, 20]) = [12, 11, 20, 31, 35] := by
   decide
 
+/-- **sort_byName_spec** — `ByName` (and any `Reverse` of it, by `reverse_strict_weak`) is a
+strict weak order, so sorting rows by name is a stable sort in the sense of `sort_stable_spec`
+without further hypotheses. -/
+theorem sort_byName_spec (rows : List Row) :
+    (sortStable Order.byName.less rows).Perm rows ∧
+    (sortStable Order.byName.less rows).Pairwise (fun a b => Order.byName.less b a = false) ∧
+    ∀ a b, List.Sublist [a, b] rows → Order.byName.less b a = false →
+      List.Sublist [a, b] (sortStable Order.byName.less rows) :=
+  sort_stable_spec _ byName_strict_weak.1 byName_strict_weak.2 rows
+
+theorem sort_reverse_byName_spec (rows : List Row) :
+    (sortStable (Order.reverse .byName).less rows).Perm rows ∧
+    (sortStable (Order.reverse .byName).less rows).Pairwise (fun a b => (Order.reverse .byName).less b a = false) ∧
+    ∀ a b, List.Sublist [a, b] rows → (Order.reverse .byName).less b a = false →
+      List.Sublist [a, b] (sortStable (Order.reverse .byName).less rows) :=
+  sort_stable_spec _ (reverse_strict_weak _ byName_strict_weak).1 (reverse_strict_weak _ byName_strict_weak).2 rows
+
 /-- `Reverse` swaps the arguments -/
 theorem reverse_less (o : Order) (a b : Row) : (Order.reverse o).less a b = o.less b a := rfl
 
